@@ -3,7 +3,7 @@ import json, os
 import vlib
 from props import limits_common as L
 
-TRANSLATORS = ["limits_wiring"]
+TRANSLATORS = ["limits_wiring", "error_consts"]     # error_consts: the bytes of the rejection (reject_too_big_request_shape)
 MODELS = ["reqlimit"]
 BINS = {"release": ["srvlimits"]}
 RULE = ("cases = one WS connection (a sequence of single-frame messages) or one HTTP POST (explicit body frames, with / "
